@@ -63,7 +63,7 @@ func TestVerifC09WS(t *testing.T) {
 	nl := verifx.EnvInt("VERIF_LANES", 8)
 	jobs := make(chan *verifx.TunnelCase, 64)
 	var wg sync.WaitGroup
-	var ran, evals, nontrivial, hangs, skipped int64
+	var ran, evals, nontrivial, hangs, skipped, aborted int64
 	var seen sync.Map
 	var sampleMu sync.Mutex
 	var samples []string
@@ -86,6 +86,11 @@ func TestVerifC09WS(t *testing.T) {
 		go func() {
 			defer wg.Done()
 			for c := range jobs {
+				if verifx.TunnelHangs() >= 24 {
+					// the run is inconclusive already; do not spend ten seconds on each remaining scenario
+					atomic.AddInt64(&aborted, 1)
+					continue
+				}
 				if c.Path != "ws" || c.Sc.Kind != "ws" {
 					verifx.Emit(map[string]any{"kind": "error", "msg": fmt.Sprintf("case %d: path %q not playable here", c.ID, c.Path)})
 					continue
@@ -128,5 +133,5 @@ func TestVerifC09WS(t *testing.T) {
 	close(jobs)
 	wg.Wait()
 	verifx.Summary(map[string]any{"cases": len(cases), "ran": ran, "evaluations": evals, "distinct_nontrivial": nontrivial,
-		"hangs": hangs, "skipped": skipped, "samples": samples, "ws": ran})
+		"hangs": hangs, "skipped": skipped, "aborted": aborted, "samples": samples, "ws": ran})
 }
